@@ -63,6 +63,15 @@ class Frame:
         loops.sort(key=lambda x: (x.lineno, x.col_offset))
         for i, x in enumerate(loops):
             self.loop_ord[id(x)] = i
+        # call-site ordinals per callee name, in source order
+        self.call_site = {}
+        calls = [x for x in ast.walk(self.fn) if isinstance(x, ast.Call)]
+        calls.sort(key=lambda x: (x.lineno, x.col_offset))
+        seen = {}
+        for x in calls:
+            nm = x.func.attr if isinstance(x.func, ast.Attribute) else (x.func.id if isinstance(x.func, ast.Name) else '?')
+            self.call_site[id(x)] = seen.get(nm, 0)
+            seen[nm] = seen.get(nm, 0) + 1
 
 
 class CoreMixin:
@@ -76,6 +85,7 @@ class CoreMixin:
         self.uses_alloc = False
         self.unsupported = []
         self.feas_cache = {}
+        self._quant_cache = {}
         self.assumptions = set()
         self.solver_calls = 0
         self.consts = {}
@@ -243,17 +253,42 @@ class CoreMixin:
         self.obligs.append(o)
         return o
 
+    def has_quantifier(self, t):
+        key = t.get_id()
+        c = self._quant_cache.get(key)
+        if c is not None:
+            return c
+        found = False
+        stack = [t]
+        seen = set()
+        while stack:
+            x = stack.pop()
+            i = x.get_id()
+            if i in seen:
+                continue
+            seen.add(i)
+            if z3.is_quantifier(x):
+                found = True
+                break
+            stack.extend(x.children())
+        self._quant_cache[key] = found
+        return found
+
     def feasible(self, st, extra=None):
-        """Cheap path-feasibility test; 'unknown' counts as feasible."""
+        """Cheap path-feasibility test (quantifier-free part of the path condition, products opaque);
+        only a definite 'unsat' prunes a path."""
         conds = list(st.pc) + list(st.guards)
         if extra is not None:
             conds.append(extra)
         s = z3.Solver()
         s.set('timeout', self.feas_timeout_ms)
+        s.set('smt.arith.nl', False)
         for c in conds:
-            s.add(c)
+            if not self.has_quantifier(c):
+                s.add(c)
         for f in self.facts:
-            s.add(f)
+            if not self.has_quantifier(f):
+                s.add(f)
         self.solver_calls += 1
         r = s.check()
         return r != z3.unsat
